@@ -97,6 +97,7 @@ KEYS = {
     "tupd": ["tid", "kind", "t", "res"], "tdelb": ["tid"], "tdel": ["tid", "kind", "res"],
     "tact": ["tid", "kind", "res"], "nexp": ["has", "x"],
     "slablen": ["aid", "ready", "len"], "slabdrop": ["aid"],
+    "mkfwd": ["fid", "aid"], "fwd": ["fid", "val"], "fcall": ["fid", "aid", "val"],
     "query": ["item", "aid"], "querye": ["item", "aid", "some"],
 }
 
